@@ -73,10 +73,10 @@ fn run_reentrant_family(cx: &mut Cx) {
     let reqs: Vec<String> = fam.iter().map(|(_, src)| format!("prog {}", kvh::hex(src.as_bytes()))).collect();
     // rc: sequential in the rc runner (panics are caught there)
     let rc_ans: Vec<String> = reqs.iter().map(|r| cx.rc.ask(r, Duration::from_secs(10))).collect();
-    // arc: a hang is the expected failure mode, so every member gets its own fresh runner, 8 at a time
+    // arc: a hang is the expected failure mode, so every member gets its own fresh runner, 21 at a time
     let arc_exe = cx.arc.exe.clone();
     let mut arc_ans: Vec<String> = vec![String::new(); reqs.len()];
-    for (ci, chunk) in reqs.chunks(8).enumerate() {
+    for (ci, chunk) in reqs.chunks(21).enumerate() {
         let res: Vec<String> = std::thread::scope(|sc| {
             let hs: Vec<_> = chunk
                 .iter()
@@ -84,7 +84,7 @@ fn run_reentrant_family(cx: &mut Cx) {
                     let exe = arc_exe.clone();
                     sc.spawn(move || {
                         let mut ch = Child::spawn(&exe);
-                        match ch.request(r, Duration::from_secs(4)) {
+                        match ch.request(r, Duration::from_secs(3)) {
                             Reply::Ok(s) => s,
                             Reply::Timeout => "TIMEOUT".to_string(),
                             Reply::Died(s) => format!("DIED {}", s),
@@ -95,7 +95,7 @@ fn run_reentrant_family(cx: &mut Cx) {
             hs.into_iter().map(|h| h.join().unwrap()).collect()
         });
         for (i, a) in res.into_iter().enumerate() {
-            arc_ans[ci * 8 + i] = a;
+            arc_ans[ci * 21 + i] = a;
         }
     }
     let listed: Vec<String> = cx
